@@ -231,7 +231,10 @@ def as_dict(spec):
     kw = dict(spec.get("params") or {})
     kw.update(common_kwargs(spec.get("common")))
     if spec["cls"] == "Amorph":
-        return {"analysis": spec["analysis"], **kw}
+        # the movement functions take an argument called `indicator`, which as a top-level dict key
+        # would name an indicator class: analysis arguments go under "args" in dict form
+        return {"analysis": spec["analysis"], "args": dict(spec.get("params") or {}),
+                **common_kwargs(spec.get("common"))}
     return {"indicator": map_key(spec["cls"]), **kw}
 
 
